@@ -33,8 +33,8 @@ Definition curve_na (d : list N) (delta : N) : N :=
 
 (* Curve::extrapolate_next: max over k in 0..=n/2 of d[k] + d[n-k-1] *)
 Definition extrapolate_next (d : list N) : N :=
-  let n := length d in
-  maxN (map (fun k => nthN d k + nthN d (n - k - 1)) (seq 0 (S (Nat.div n 2)))).
+  maxN (firstn (S (Nat.div (length d) 2))
+          (map (fun p => fst p + snd p) (combine d (rev_append d [])))).
 
 Definition can_extrapolate (d : list N) : bool := 2 <=? lenN d.
 
